@@ -293,7 +293,7 @@ Proof. unfold s_put. rewrite owner_eqb_refl. reflexivity. Qed.
 Lemma step_ok st ss o : Rel st ss -> key_in_U o ->
   exists st', m_step st o = Ok (st', snd (s_step ss o)) /\ Rel st' (fst (s_step ss o)).
 Proof.
-  intros R KU. unfold m_step. destruct o as [ow k v|ow k|ow| | |r d|r|n|n|n|ow|ow]; cbn [m_step_gen s_step].
+  intros R KU. unfold m_step. destruct o as [ow k v|ow k|ow| | |r d|r|n|n|n|ow| |ow]; cbn [m_step_gen s_step].
   - (* SetP *)
     pose proof (head_of_spec st ss ow R) as H. destruct (canon ss ow) as [cn|] eqn:C.
     + destruct H as (p & -> & S). cbn [bind].
@@ -501,6 +501,22 @@ Proof.
     pose proof (head_of_spec st ss ow R) as H. destruct (canon ss ow) as [cn|] eqn:C.
     + destruct H as (p & -> & S). cbn [bind]. eexists. split; [reflexivity|exact R].
     + rewrite H. cbn [bind]. eexists. split; [reflexivity|exact R].
+  - (* AddSeparator *)
+    eexists. split; [reflexivity|]. cbn [fst]. destruct R. constructor; cbn; auto.
+    + rewrite map_app. cbn. rewrite R_rows0. reflexivity.
+    + assert (length (s_rows ss) = length (m_rows st)) as LL by (rewrite <- R_rows0; apply map_length).
+      intros o q Eo. destruct o; cbn [slot m_table m_cols m_rows m_dets] in Eo;
+        try (rewrite put_other by reflexivity; apply R_good0; exact Eo).
+      * destruct (nth_error (m_rows st ++ [mkRow None [] true]) r) as [rw|] eqn:Er; [|discriminate].
+        inversion Eo; subst q. apply nth_error_snoc in Er as [[L Er]|[-> ->]].
+        -- rewrite put_other. { apply R_good0. cbn. rewrite Er. reflexivity. }
+           cbn. apply Nat.eqb_neq. lia.
+        -- rewrite LL, put_same. apply good_empty.
+      * rewrite put_other by reflexivity.
+        destruct (nth_error (m_rows st ++ [mkRow None [] true]) r) as [rw|] eqn:Er; [|discriminate].
+        apply nth_error_snoc in Er as [[L Er]|[-> ->]].
+        -- apply R_good0. cbn. rewrite Er. exact Eo.
+        -- cbn in Eo. destruct c; discriminate.
   - (* NewCellOf *)
     assert (is_cell_owner ow = s_is_cell ow) as -> by (destruct ow; reflexivity).
     destruct (s_is_cell ow); [|eexists; split; [reflexivity|exact R]].
@@ -580,7 +596,7 @@ Proof.
   intros H [I1 I2].
   assert (m_inv st /\ m_ncols st <= m_ncols st /\ exists extra, m_handles st = m_handles st ++ extra) as Same.
   { split; [split; auto|]. split; auto. exists []. rewrite app_nil_r. reflexivity. }
-  unfold m_step in H. destruct o as [ow k v|ow k|ow| | |rr d|rr|n|n|n|ow|ow]; cbn [m_step_gen] in H.
+  unfold m_step in H. destruct o as [ow k v|ow k|ow| | |rr d|rr|n|n|n|ow| |ow]; cbn [m_step_gen] in H.
   - destruct (head_of st ow) as [[p|]| |]; cbn [bind] in H; try discriminate.
     + destruct (hset_property (m_heap st) p k v) as [[h' p']| |]; cbn [bind fst snd] in H; try discriminate.
       inversion H; subst.
@@ -636,6 +652,7 @@ Proof.
     + rewrite Rn. lia.
     + exists []. rewrite Rhd, app_nil_r. reflexivity.
   - destruct (head_of st ow) as [[p|]| |]; cbn [bind] in H; try discriminate; inversion H; subst; exact Same.
+  - inversion H; subst. cbn. split; [split; auto|]. split; auto. exists []. rewrite app_nil_r. reflexivity.
   - destruct (is_cell_owner ow); [|inversion H; subst; exact Same].
     destruct (head_of st ow) as [[p|]| |]; cbn [bind] in H; try discriminate; inversion H; subst; [|exact Same].
     cbn. split; [split; auto|]. split; auto. exists []. rewrite app_nil_r. reflexivity.
